@@ -1373,13 +1373,12 @@ class E3Job:
                 ok = judge("<then P=2.0>")
                 if ok and as_list(sv.F, K) is not None:
                     e3_solve(sv, b, 0)
-                    md2 = dict(md, FFx=None, FFalt=None, dirty=False)
                     hk, Hbig = self.heff(md["chan"])
                     check_solution(chk, sv, Hbig,
                                    dict(case, solver=b["solver"], K=K, Nr=b["Nr"], Nt=b["Nt"], Ns=b["Ns"],
                                         P=solve_power(b, 0), init=md["init"] or b["init"],
                                         after_invalid_calls=True), b["n"])
-                    judge("<then solve>") if md2 is not None else None
+                    judge("<then solve>")
             except Exception as e:  # noqa
                 chk.fail(("after_invalid_call", "<then valid calls>", "exception", type(e).__name__,
                           exc_where(e)), case, observed="%s: %s" % (type(e).__name__, e),
